@@ -1067,13 +1067,25 @@ func (fr *Frame) builtin(st *State, site ssa.Instruction, b *ssa.Builtin, cc *ss
 		case *ArrPtrV:
 			return a.S.Len
 		case *IteV:
-			x, okx := a.A.(*SliceV)
-			y, oky := a.B.(*SliceV)
-			if okx && oky {
-				if b.Name() == "len" {
-					return F.Ite(a.C, x.Len, y.Len)
+			// a conditional slice (nested conditionals included): the length of whichever alternative is taken
+			var lenOf func(x Value) *Term
+			lenOf = func(x Value) *Term {
+				switch y := x.(type) {
+				case *SliceV:
+					if b.Name() == "len" {
+						return y.Len
+					}
+					return y.Cap
+				case *IteV:
+					l, r := lenOf(y.A), lenOf(y.B)
+					if l != nil && r != nil {
+						return F.Ite(y.C, l, r)
+					}
 				}
-				return F.Ite(a.C, x.Cap, y.Cap)
+				return nil
+			}
+			if t := lenOf(a); t != nil {
+				return t
 			}
 		}
 		unsup("len/cap of %T", args[0])
